@@ -5,12 +5,16 @@
 // under any add / update / remove history and rejects clashes atomically) by
 // deterministic simulation on engine E1: seeded histories over the real
 // client.Storage wired into the real filtering/dnsforward pipeline, a
-// simulated DHCP lease table whose leases expire with the fake clock, and a
-// map reference model compared after every operation.
+// simulated DHCP lease table whose leases expire with the fake clock, pause
+// schedules on the global and on every client's own blocked services (so that
+// "the client's own blocked-services settings, never the global ones" is
+// observed inside and outside the windows as the clock moves), and a map
+// reference model compared after every operation.
 package c04
 
 import (
 	"context"
+	"encoding/json"
 	"fmt"
 	"net"
 	"net/netip"
@@ -32,6 +36,58 @@ import (
 	"pgregory.net/rapid"
 )
 
+// Pause is a pause schedule of blocked services: every day of the week, from
+// minute S to minute E (exclusive) of the day in UTC.  nil = never paused.
+type Pause struct {
+	S int `json:"s"`
+	E int `json:"e"`
+}
+
+// in is the reference: whether t's time of day (UTC) lies in [S, E).
+func (p *Pause) in(t time.Time) bool {
+	if p == nil {
+		return false
+	}
+	u := t.UTC()
+	sec := u.Hour()*3600 + u.Minute()*60 + u.Second()
+	return p.S*60 <= sec && sec < p.E*60
+}
+
+// weekly builds the schedule the way the admin API receives it (JSON).
+func (p *Pause) weekly() (*schedule.Weekly, error) {
+	if p == nil {
+		return schedule.EmptyWeekly(), nil
+	}
+	doc := map[string]any{"time_zone": "UTC"}
+	for _, d := range []string{"sun", "mon", "tue", "wed", "thu", "fri", "sat"} {
+		doc[d] = map[string]int64{"start": int64(p.S) * 60_000, "end": int64(p.E) * 60_000}
+	}
+	b, _ := json.Marshal(doc)
+	w := &schedule.Weekly{}
+	if err := json.Unmarshal(b, w); err != nil {
+		return nil, fmt.Errorf("harness: schedule %s: %w", b, err)
+	}
+	return w, nil
+}
+
+// genPause draws a pause schedule whose edges lie where the simulated clock of
+// a case (midnight + seconds .. hours) crosses them.
+func genPause(t *rapid.T, label string) *Pause {
+	switch k := rapid.IntRange(0, 19).Draw(t, label+"_kind"); {
+	case k < 8:
+		return nil
+	case k < 11:
+		return &Pause{0, 1440}
+	case k < 16:
+		return &Pause{0, rapid.SampledFrom([]int{1, 2, 60, 61, 121, 600}).Draw(t, label+"_end")}
+	case k < 18:
+		return &Pause{rapid.SampledFrom([]int{1, 2, 60, 61, 121}).Draw(t, label+"_start"), 1440}
+	default:
+		st := rapid.SampledFrom([]int{1, 2, 60, 61}).Draw(t, label+"_start")
+		return &Pause{st, st + rapid.SampledFrom([]int{1, 59, 60, 120}).Draw(t, label+"_len")}
+	}
+}
+
 // Spec is the administrator's description of one persistent client.
 type Spec struct {
 	Name        string   `json:"name"`
@@ -43,6 +99,8 @@ type Spec struct {
 	SafeSearch  bool     `json:"ss"`
 	OwnServices bool     `json:"own_svc"`
 	Services    []string `json:"svc,omitempty"`
+	// Pause is the pause schedule of the client's own blocked services.
+	Pause *Pause `json:"pause,omitempty"`
 }
 
 // Op is one generated operation.
@@ -68,7 +126,9 @@ type Scenario struct {
 	GlobalParental  bool     `json:"g_par"`
 	GlobalSS        bool     `json:"g_ss"`
 	GlobalServices  []string `json:"g_svc"`
-	Ops             []Op     `json:"ops"`
+	// GlobalPause is the pause schedule of the global blocked services.
+	GlobalPause *Pause `json:"g_pause,omitempty"`
+	Ops         []Op   `json:"ops"`
 }
 
 var (
@@ -108,6 +168,7 @@ func genSpec(t *rapid.T) *Spec {
 	s.SafeSearch = rapid.Bool().Draw(t, "ss")
 	s.OwnServices = rapid.Bool().Draw(t, "own_svc")
 	s.Services = rapid.SliceOfNDistinct(rapid.SampledFrom(svcPool), 0, 2, rapid.ID[string]).Draw(t, "svc")
+	s.Pause = genPause(t, "pause")
 	return s
 }
 
@@ -118,6 +179,7 @@ func Gen(t *rapid.T, tier string) any {
 		GlobalParental: rapid.Bool().Draw(t, "g_par"), GlobalSS: rapid.Bool().Draw(t, "g_ss"),
 		GlobalServices: rapid.SliceOfNDistinct(rapid.SampledFrom(svcPool), 0, 2, rapid.ID[string]).Draw(t, "g_svc"),
 	}
+	sc.GlobalPause = genPause(t, "g_pause")
 	maxOps := 40
 	if tier == "thorough" {
 		maxOps = 90
@@ -135,7 +197,7 @@ func Gen(t *rapid.T, tier string) any {
 			op = Op{Kind: "lease", IP: rapid.SampledFrom(srcIPs[:10]).Draw(t, "lease_ip"), MAC: rapid.SampledFrom(macIDs).Draw(t, "lease_mac"), TTLs: rapid.SampledFrom([]int{0, 60, 3600}).Draw(t, "lease_ttl")}
 		case k < 58:
 			op = Op{Kind: "unlease", IP: rapid.SampledFrom(srcIPs[:10]).Draw(t, "unlease_ip")}
-		case k < 62:
+		case k < 65:
 			op = Op{Kind: "advance", Secs: rapid.SampledFrom([]int{1, 59, 61, 3599, 3601}).Draw(t, "secs")}
 		case k < 78:
 			var id string
@@ -281,7 +343,13 @@ type effective struct {
 }
 
 func (m *model) effective(cid string, addr netip.Addr) effective {
+	// Blocked-services settings are a list and a pause schedule; inside the
+	// pause nothing of the list is applied.
+	now := time.Now()
 	e := effective{filt: m.sc.GlobalFiltering, sb: m.sc.GlobalSB, par: m.sc.GlobalParental, ss: m.sc.GlobalSS, services: m.sc.GlobalServices}
+	if m.sc.GlobalPause.in(now) {
+		e.services = nil
+	}
 	name, _ := m.attribute(cid, addr)
 	if name == "" {
 		return e
@@ -292,7 +360,11 @@ func (m *model) effective(cid string, addr netip.Addr) effective {
 		e.filt, e.sb, e.par, e.ss = c.Filtering, c.SafeBrowse, c.Parental, c.SafeSearch
 	}
 	if c.OwnServices {
+		// The client's own list and its own schedule, never the global ones.
 		e.services = c.Services
+		if c.Pause.in(now) {
+			e.services = nil
+		}
 	}
 	return e
 }
@@ -309,11 +381,24 @@ func toPersistent(s *Spec) (*client.Persistent, error) {
 	p := &client.Persistent{Name: s.Name, UID: client.MustNewUID(), UseOwnSettings: s.OwnSettings, FilteringEnabled: s.Filtering,
 		SafeBrowsingEnabled: s.SafeBrowse, ParentalEnabled: s.Parental, UseOwnBlockedServices: s.OwnServices}
 	p.SafeSearchConf.Enabled = s.SafeSearch
-	p.BlockedServices = &filtering.BlockedServices{IDs: s.Services, Schedule: schedule.EmptyWeekly()}
+	w, err := s.Pause.weekly()
+	if err != nil {
+		return nil, err
+	}
+	p.BlockedServices = &filtering.BlockedServices{IDs: s.Services, Schedule: w}
 	if err := p.SetIDs(s.IDs); err != nil {
 		return nil, fmt.Errorf("harness: SetIDs %v: %w", s.IDs, err)
 	}
 	return p, nil
+}
+
+// schedText is the schedule as the admin API would show it.
+func schedText(w *schedule.Weekly) string {
+	b, err := json.Marshal(w)
+	if err != nil {
+		return "unserialisable: " + err.Error()
+	}
+	return string(b)
 }
 
 func (r *runner) dump() string {
@@ -321,7 +406,7 @@ func (r *runner) dump() string {
 	r.n.Clients.RangeByName(func(c *client.Persistent) bool {
 		ids := c.IDs()
 		sort.Strings(ids)
-		lines = append(lines, fmt.Sprintf("%s ids=%v own=%v/%v/%v/%v/%v svc=%v/%v", c.Name, ids, c.UseOwnSettings, c.FilteringEnabled, c.SafeBrowsingEnabled, c.ParentalEnabled, c.SafeSearchConf.Enabled, c.UseOwnBlockedServices, c.BlockedServices.IDs))
+		lines = append(lines, fmt.Sprintf("%s ids=%v own=%v/%v/%v/%v/%v svc=%v/%v pause=%s", c.Name, ids, c.UseOwnSettings, c.FilteringEnabled, c.SafeBrowsingEnabled, c.ParentalEnabled, c.SafeSearchConf.Enabled, c.UseOwnBlockedServices, c.BlockedServices.IDs, schedText(c.BlockedServices.Schedule)))
 		return true
 	})
 	return strings.Join(lines, "\n")
@@ -339,7 +424,7 @@ func (r *runner) modelDump() string {
 		p, _ := toPersistent(c)
 		ids := p.IDs()
 		sort.Strings(ids)
-		lines = append(lines, fmt.Sprintf("%s ids=%v own=%v/%v/%v/%v/%v svc=%v/%v", c.Name, ids, c.OwnSettings, c.Filtering, c.SafeBrowse, c.Parental, c.SafeSearch, c.OwnServices, c.Services))
+		lines = append(lines, fmt.Sprintf("%s ids=%v own=%v/%v/%v/%v/%v svc=%v/%v pause=%s", c.Name, ids, c.OwnSettings, c.Filtering, c.SafeBrowse, c.Parental, c.SafeSearch, c.OwnServices, c.Services, schedText(p.BlockedServices.Schedule)))
 	}
 	return strings.Join(lines, "\n")
 }
@@ -412,7 +497,22 @@ func (r *runner) checkSettings(cid string, addr netip.Addr) error {
 		name, how := r.m.attribute(cid, addr)
 		return kernel.Violationf("settings-mismatch", "request from %s clientid=%q: effective settings %s; reference model (attributed to %q by %s): %s\nregistry:\n%s", addr, cid, got, name, how, exp, r.dump())
 	}
-	_, how := r.m.attribute(cid, addr)
+	name, how := r.m.attribute(cid, addr)
+	now := time.Now()
+	globalActive := len(r.m.sc.GlobalServices) > 0 && !r.m.sc.GlobalPause.in(now)
+	if r.m.sc.GlobalPause.in(now) {
+		r.c.Probe("query_in_global_pause")
+	}
+	if c := r.m.clients[name]; c != nil && c.OwnServices {
+		switch {
+		case c.Pause.in(now) && globalActive:
+			r.c.Probe("query_in_own_pause_global_list_active")
+		case c.Pause.in(now):
+			r.c.Probe("query_in_own_pause")
+		case c.Pause != nil:
+			r.c.Probe("query_outside_own_pause")
+		}
+	}
 	if how != "" {
 		r.c.Probe("attributed_by_" + how)
 	} else {
@@ -572,12 +672,16 @@ func Run(t *testing.T, scAny any, c *kernel.Ctx) error {
 	}
 	defer os.RemoveAll(dir)
 	return kernel.Bubble(t, func() error {
+		gw, err := sc.GlobalPause.weekly()
+		if err != nil {
+			return err
+		}
 		dh := &simDHCP{leases: map[netip.Addr]lease{}}
 		up := &env.Upstream{Addr: "sim-upstream:53", Answer: env.DefaultAnswer}
 		cfg := &dnsnode.Config{Dir: dir, ListServer: env.NewListServer(), Upstream: up, UpTimeout: 2 * time.Second, ServerName: "dns.example", ClientDHCP: dh}
 		cfg.Filtering = filtering.Config{BlockingMode: filtering.BlockingModeDefault, ProtectionEnabled: true, FilteringEnabled: sc.GlobalFiltering,
 			SafeBrowsingEnabled: sc.GlobalSB, ParentalEnabled: sc.GlobalParental, UserRules: []string{"||blocked.test^"}, FiltersUpdateIntervalHours: 24,
-			BlockedServices: &filtering.BlockedServices{IDs: sc.GlobalServices, Schedule: schedule.EmptyWeekly()}}
+			BlockedServices: &filtering.BlockedServices{IDs: sc.GlobalServices, Schedule: gw}}
 		cfg.Filtering.SafeSearchConf.Enabled = sc.GlobalSS
 		cfg.SafeBrowsing, cfg.Parental = neverBlock{}, neverBlock{}
 		cfg.DNS = dnsforward.Config{}
@@ -614,7 +718,7 @@ func (neverBlock) Check(string) (bool, error) { return false, nil }
 var Prop = &kernel.Property{
 	ID:    "C04",
 	Level: "exploration",
-	Rule: "seeded histories (rapid) of add / update (rename, swap and drop identifiers) / remove over 5 names with identifiers from small pools (IPs, nested CIDRs /0../31 v4 and v6, MACs of 6/8/20 bytes, ClientIDs) so that clashes are frequent, interleaved with DHCP lease set/remove, clock advances past lease expiry, lookups by every identifier, effective-settings probes and real DNS requests with and without ClientID; after every op the whole registry and every identifier of the universe are compared with the map model; " +
+	Rule: "seeded histories (rapid) of add / update (rename, swap and drop identifiers) / remove over 5 names with identifiers from small pools (IPs, nested CIDRs /0../31 v4 and v6, MACs of 6/8/20 bytes, ClientIDs) so that clashes are frequent, interleaved with DHCP lease set/remove, clock advances past lease expiry, lookups by every identifier, effective-settings probes and real DNS requests with and without ClientID; the global and every client's own blocked services carry a pause schedule (none, whole day, or a window whose edges the clock advances of the case cross), and the effective blocked services are compared at whatever the simulated clock shows; after every op the whole registry and every identifier of the universe are compared with the map model; " +
 		"non-trivial = at least one accepted add/update, one rejected clash and one attribution by something other than 'nobody'; distinct = distinct scenario digests",
 	Gen: Gen,
 	New: func() any { return &Scenario{} },
@@ -624,7 +728,8 @@ var Prop = &kernel.Property{
 	},
 	Real:        []string{"internal/client (Storage, index, Persistent)", "internal/filtering (Settings, ApplyAdditionalFiltering, blocked services)", "internal/dnsforward request pipeline (end-to-end attribution)", "dnsproxy request path"},
 	Stub:        []string{"DHCP lease table (seeded, leases expire on the simulated clock)", "upstream resolver", "client sockets", "safe-browsing / parental checkers (never block)"},
-	Assumptions: []string{"clients are built with Persistent.SetIDs from identifier strings, as the admin API does", "two clients may hold overlapping (non-identical) CIDRs; identical CIDRs clash"},
+	Assumptions: []string{"pause schedules are in UTC with the same range every weekday (zones, weekdays and DST are C18's subject); the reference reads hour/minute/second of the instant in UTC", "clients are built with Persistent.SetIDs from identifier strings, as the admin API does", "two clients may hold overlapping (non-identical) CIDRs; identical CIDRs clash"},
 	FaultKinds:  []string{"dhcp_lease_change", "dhcp_lease_expired"},
-	ProbeNames:  []string{"client_added", "client_updated", "client_renamed", "client_removed", "clash_rejected", "attributed_by_clientid", "attributed_by_ip", "attributed_by_cidr", "attributed_by_mac", "attributed_to_nobody", "e2e_query"},
+	ProbeNames: []string{"client_added", "client_updated", "client_renamed", "client_removed", "clash_rejected", "attributed_by_clientid", "attributed_by_ip", "attributed_by_cidr", "attributed_by_mac", "attributed_to_nobody", "e2e_query",
+		"query_in_global_pause", "query_in_own_pause", "query_in_own_pause_global_list_active", "query_outside_own_pause"},
 }
